@@ -420,8 +420,9 @@ Leave
 
 // leave causes the node to politely leave the network. If the node is not
 // alone, it submits an InternalTransaction to be removed from the
-// validator-set. Otherwise it does nothing.
-func (c *core) leave(leaveTimeout time.Duration) error {
+// validator-set. Otherwise it does nothing. The lock protects the core's pools
+// against concurrent access by other routines.
+func (c *core) leave(leaveTimeout time.Duration, lock sync.Locker) error {
 	// Do nothing if we are not a validator.
 	p, ok := c.validators.ByID[c.validator.ID()]
 	if !ok {
@@ -447,7 +448,11 @@ func (c *core) leave(leaveTimeout time.Duration) error {
 	itx := hg.NewInternalTransaction(hg.PEER_REMOVE, *p)
 	itx.Sign(c.validator.Key)
 
+	// The pools and promises are shared with the gossip routines and the RPC
+	// handlers, which access them under the lock.
+	lock.Lock()
 	promise := c.addInternalTransaction(itx)
+	lock.Unlock()
 
 	// Wait for the InternalTransaction to go through consensus
 	timeout := time.After(leaveTimeout)
